@@ -43,6 +43,23 @@ CLAIMS = {
         design_ref='DESIGN.md section 4, C20',
         note=CH_NOTE + ' Names/comment text are assumed XML-representable (not escaped by the writer, not required '
              'by the property); longer strings than the bounds in (a) are outside the claim.'),
+    'C19': dict(
+        engine='ZRE+CH',
+        technique='z3 regular-expression/string queries over the live compiled pattern objects (library name a '
+                  'symbolic string spliced into the parse tree) + CrossHair on the matching loop',
+        category='model_checking',
+        text='The pattern built by the real _ldd_library_pattern is translated from its parse tree to a z3 regex with '
+             'the library name a z3 string variable; unsat of (impl and not spec) / (spec and not impl) shows language '
+             'equivalence with the statement written with string operations (|name|<=3, |word|<=8 quick; up to 6/12 '
+             'thorough) and as an independent regex (|name|<=6/10, |word|<=12/20), plus the named consequences (pango vs '
+             'pangoft2, foo vs libfoo-bar/liblibfoo, metacharacters) for words of any length. The matching loop is '
+             'executed by CrossHair with the pattern abstracted to a symbolic word->library assignment over <=2x2 '
+             '(quick) / 3x3 (thorough) libraries x lines incl. header lines and existing-file requests; _libtool_pat '
+             'is shown to find and capture every dlname of <=6/10 characters.',
+        design_ref='DESIGN.md section 4, C19',
+        note='Trusted: z3 sequence/regex theory, re.escape per-character contract (literalness checked concretely), '
+             'CrossHair models; capture semantics decided by uniqueness of decomposition; solver unknown/timeouts are '
+             'reported as inconclusive; sat models are replayed against the real re object before being reported.'),
 }
 
 NOT_APPLICABLE = {
